@@ -1,5 +1,6 @@
 import RV.Proofs.GravityComp
 import RV.Proofs.GravityTree
+import RV.Proofs.GravityTreeData
 import RV.Proofs.GravityEnc
 import RV.Proofs.GravityTrace
 import RV.Proofs.GravityJacobi
@@ -518,6 +519,25 @@ theorem c02_tree_theta0_direct (starPref : K → K) (gt : K → K → Bool) (sof
   rw [accTree_direct starPref gt soft theta2 _ roots m x hopen hleaves hk,
     accBasic_declarative _ (fun _ _ _ => rfl) ⟨N, false, 0, soft⟩ _ (ghostList_symm shifted bs nx ny nz) m x
       (le_refl N) (by simp) hk]
+
+/-! ### TREE monopole data follow the particle array -/
+
+/-- one pass of `reb_simulation_update_tree_gravity_data_in_cell` (tree.c:217-283) keeps the leaves
+    (particle index, remote flag) and makes the mass of every cell the sum of the masses the
+    particle array holds NOW for the particles below it — whatever was cached in the cells before
+    (a mass assigned after the particle entered the tree is picked up). -/
+theorem c02_tree_cell_mass (gt0 : K → Bool) (ps : Array (Body K)) (c : Cell K) :
+    (leaves (refreshCell gt0 ps c)).map (fun l => (l.pt, l.remote)) = (leaves c).map (fun l => (l.pt, l.remote))
+    ∧ cellM (refreshCell gt0 ps c) = ((leaves c).map (massNow ps)).sum :=
+  ⟨refresh_leaves gt0 ps c, refresh_mass gt0 ps c⟩
+
+/-- … and, where every non-leaf cell passes the `m_tot > 0` test, mass × centre of mass of every cell
+    is the sum of current mass × current position of the particles below it. -/
+theorem c02_tree_cell_com (gt0 : K → Bool) (hgt : ∀ m, gt0 m = true → m ≠ 0) (ps : Array (Body K))
+    (c : Cell K) (h : nodesPos gt0 (refreshCell gt0 ps c)) :
+    cellM (refreshCell gt0 ps c) • cellCom (refreshCell gt0 ps c)
+      = ((leaves c).map fun l => massNow ps l • posNow ps l).sum :=
+  refresh_moment gt0 hgt ps c h
 
 /-! ### non-vacuity: a concrete 4-body configuration over ℚ with one test particle, a
     zero-mass active body, gravity_ignore_terms = 1 and one ghost ring meets every hypothesis;
